@@ -2,6 +2,8 @@ package main
 
 import (
 	"fmt"
+	"os"
+	"os/exec"
 	"strings"
 	"sync"
 	"sync/atomic"
@@ -32,6 +34,8 @@ var c14templates = []string{
 	`<% let a = [1, 2, 3] %><% a = a + n %><% a[0] = n %><%= a[0] %>,<%= a[3] %>,<%= len(a) %>`,
 	`<% let a = [1, 2, 3, 4, 5] %><%= for (i) in [0, 1, 2] { %><% a[i] = a[i] + n %><% } %><% a = a + name %><%= a %>`,
 	`<% let h = {"k": 1, "j": "x"} %><% h["k"] = n %><% h[name] = n %><%= h["k"] %><%= len(h) %>`,
+	// a slice with spare capacity held by the shared parent: every execution appends to it
+	`<% let ys = sharedxs + name %><% let zs = sharedxs + n %><%= ys[2] %>|<%= zs[2] %>|<%= len(sharedxs) %>`,
 	// a helper that fills defaults into the options map it is given, called WITHOUT options
 	`<%= tagopt(name) %>|<%= tagopt("x" + name) %>|<%= tagopt(name, {id: "mine"}) %>`,
 }
@@ -57,6 +61,59 @@ func c14ctx(parent *plush.Context, g int) *plush.Context {
 	c.Set("n", g%4)
 	c.Set("items", []string{"a", "b", fmt.Sprint(g % 2)})
 	return c
+}
+
+// witness (run in a process of its own, so that its race reports stay apart): a view executed
+// once on a parent context stores a contentFor block there; children of that parent then replay
+// it concurrently with their own data. Returns "ok" or a description of the first wrong result.
+func c14ContentForSharedParent() string {
+	parent := plush.NewContext()
+	view, err := plush.Parse(`<% contentFor("x") { %>[<%= name %>|<%= name %>|<%= name %>]<% } %>`)
+	if err != nil {
+		return "parse: " + err.Error()
+	}
+	if _, err := view.Exec(parent); err != nil {
+		return "view: " + err.Error()
+	}
+	replay, err := plush.Parse(`<%= contentOf("x", {"name": me}) %>`)
+	if err != nil {
+		return "parse: " + err.Error()
+	}
+	const G, iters = 8, 400
+	bad := make(chan string, G)
+	var wg sync.WaitGroup
+	for g := 0; g < G; g++ {
+		wg.Add(1)
+		go func(g int) {
+			defer wg.Done()
+			defer func() {
+				if r := recover(); r != nil {
+					bad <- fmt.Sprintf("goroutine %d panicked: %v", g, r)
+				}
+			}()
+			me := fmt.Sprintf("g%d", g)
+			want := "[" + me + "|" + me + "|" + me + "]"
+			for i := 0; i < iters; i++ {
+				c := parent.New()
+				c.Set("me", me)
+				s, err := replay.Exec(c)
+				if err != nil {
+					s = "ERR:" + err.Error()
+				}
+				if s != want {
+					bad <- fmt.Sprintf("goroutine %d got %q, alone it gets %q", g, s, want)
+					return
+				}
+			}
+		}(g)
+	}
+	wg.Wait()
+	select {
+	case b := <-bad:
+		return b
+	default:
+		return "ok"
+	}
 }
 
 func init() {
@@ -117,6 +174,9 @@ func init() {
 							parent = plush.NewContext()
 							parent.Set("partialFeeder", func(string) (string, error) { return `[<%= who %>]`, nil })
 							parent.Set("shared", "S")
+							xs := make([]interface{}, 2, 16)
+							xs[0], xs[1] = "x0", "x1"
+							parent.Set("sharedxs", xs)
 						}
 						// sequential reference
 						want := make([]string, G)
@@ -172,6 +232,23 @@ func init() {
 						}
 					}
 				}
+			}
+		}
+		// (b3) a contentFor block stored in a shared parent by an earlier execution, replayed concurrently
+		// from children of that parent (recorded finding: the stored block keeps the finished
+		// execution's evaluator, whose scope pointer every replay swaps)
+		{
+			cmd := exec.Command(os.Args[0], "-prop", "C14", "-witness", "cfshared")
+			cmd.Env = append(os.Environ(), "GORACE=log_path=/dev/null halt_on_error=0 exitcode=0")
+			out, _ := cmd.CombinedOutput()
+			res := strings.TrimSpace(string(out))
+			if i := strings.LastIndex(res, "\n"); i >= 0 {
+				res = res[i+1:]
+			}
+			e.rep.Evaluations++
+			e.Count("contentfor-shared-parent")
+			if res != "ok" {
+				e.Violate("c14-contentfor-closure-shared-parent", "a contentFor block stored in a shared parent context and replayed concurrently from its children: "+res, map[string]string{"result": res})
 			}
 		}
 		// (b2) two templates executed one after the other on the SAME context by each goroutine
